@@ -3,6 +3,7 @@
 import PdfVerif.Spec.Labels
 import PdfVerif.Spec.Outline
 import PdfVerif.Spec.NameTree
+import PdfVerif.Model.OutlineGraph
 
 open PdfVerif
 
@@ -143,6 +144,21 @@ partial def oforest : SExp → Option (List Spec.Outline.OTree)
   | _ => none
 end
 
+/-- `(id title dest a se first last next)` -/
+def gnode : SExp → Option (Nat × OutlineGraph.GNode)
+  | .list [.atom id, t, d, a, se, first, last, next] => do
+    let id ← id.toNat?
+    let i ← info t d a se
+    let f ← optNat first
+    let l ← match last with | .atom "+" => some true | .atom "-" => some false | _ => none
+    let n ← optNat next
+    pure (id, { info := i, first := f, hasLast := l, next := n })
+  | _ => none
+
+def gstore : SExp → Option OutlineGraph.Store
+  | .list (.atom "G" :: ns) => ns.mapM gnode
+  | _ => none
+
 def showOptNat : Option Nat → String
   | some n => toString n
   | none => "-"
@@ -272,6 +288,16 @@ def handle (line : String) : String :=
       | some e => showItems (Outline.getOutlines e)
       | none => "bad-op"
     | _ => "bad-op"
+  | "outline.graph" :: root :: rest =>
+    match root.toNat?, parseAll rest with
+    | some r, some [g] =>
+      match gstore g with
+      | some g =>
+        match OutlineGraph.getOutlinesG g r with
+        | some l => showItems l
+        | none => "E:fuel"
+      | none => "bad-op"
+    | _, _ => "bad-op"
   | "outline.enc" :: rest =>
     match parseAll rest with
     | some [f] =>
